@@ -524,6 +524,12 @@ func (r *reconstructor) reconstructMap(rv reflect.Value) error {
 						b[i] = buf[i]
 					}
 
+					if ek := rv.Type().Elem().Kind(); ek != reflect.Ptr && ek != reflect.Interface {
+						// Map of values (`map[string]Binary`). A pointer is not assignable to it.
+						rv.SetMapIndex(mk, n)
+						return nil
+					}
+
 					x := reflect.New(mv.Type())
 					x.Elem().Set(n)
 					rv.SetMapIndex(mk, x)
